@@ -323,28 +323,28 @@ def run_misc(case, rec):
 
 
 CHECKS = [
-    Check("sweep", run=run_sweep, strategy=strat_sweep, examples=(14000, 400000), shards=(16, 16), variant="asan",
+    Check("sweep", run=run_sweep, strategy=strat_sweep, examples=(14000, 100000), shards=(16, 16), variant="asan",
           rule="cipher/mode length sweep with exactly-sized offset buffers, aliasing, short/long outputs, tag-length extremes"),
-    Check("hsweep", run=run_hsweep, strategy=strat_hsweep, examples=(8000, 200000), shards=(16, 16), variant="asan",
+    Check("hsweep", run=run_hsweep, strategy=strat_hsweep, examples=(8000, 60000), shards=(16, 16), variant="asan",
           rule="hash/XOF/MAC length and output-length sweep with offset buffers, copy/del interleaved"),
-    Check("rsa_decoders", run=run_rsa, strategy=strat_rsa, examples=(2500, 50000), shards=(16, 16), variant="asan",
+    Check("rsa_decoders", run=run_rsa, strategy=strat_rsa, examples=(2500, 15000), shards=(16, 16), variant="asan",
           rule="pkcs1_decode / oaep_decode / PSS / v1.5 verification with every key-size x hash combination, ciphertext lengths k-1/k/k+1, sentinel and expected lengths at extremes"),
-    Check("misc", run=run_misc, strategy=strat_misc, examples=(6000, 150000), shards=(16, 16), variant="asan",
+    Check("misc", run=run_misc, strategy=strat_misc, examples=(6000, 40000), shards=(16, 16), variant="asan",
           rule="strxor, modexp/mont sizes 0..600 bytes, EC scalars/coordinates of any length, scrypt/bcrypt/PBKDF2, X25519/X448 import, Poly1305"),
-    Check("lifecycle", run=reuse(c19.run_seq), strategy=c19.strat_seq, examples=(2500, 60000), shards=(16, 16), variant="asan",
+    Check("lifecycle", run=reuse(c19.run_seq), strategy=c19.strat_seq, examples=(2500, 15000), shards=(16, 16), variant="asan",
           rule="object life-cycle programs (create/copy/use/del + gc.collect()) from C19 under ASan"),
-    Check("drv_c09_cipher", run=reuse(c09.run_cipher), strategy=c09.strat_cipher, examples=(5000, 150000), shards=(16, 16), variant="asan",
+    Check("drv_c09_cipher", run=reuse(c09.run_cipher), strategy=c09.strat_cipher, examples=(5000, 40000), shards=(16, 16), variant="asan",
           rule="C09 segmentation/buffer-type/in-place driver (classic modes, stream ciphers) under ASan"),
-    Check("drv_c09_aead", run=reuse(c09.run_aead), strategy=c09.strat_aead, examples=(4000, 100000), shards=(16, 16), variant="asan",
+    Check("drv_c09_aead", run=reuse(c09.run_aead), strategy=c09.strat_aead, examples=(4000, 25000), shards=(16, 16), variant="asan",
           rule="C09 AEAD segmentation/in-place driver under ASan"),
-    Check("drv_c06", run=reuse(c06.run_ops), strategy=c06.strat_ops, examples=(1500, 40000), shards=(16, 16), variant="asan",
+    Check("drv_c06", run=reuse(c06.run_ops), strategy=c06.strat_ops, examples=(1500, 10000), shards=(16, 16), variant="asan",
           rule="C06 point-operation driver under ASan"),
-    Check("drv_c14", run=reuse(c14.run_arith), strategy=c14.strat_arith, examples=(6000, 200000), shards=(16, 16), variant="asan",
+    Check("drv_c14", run=reuse(c14.run_arith), strategy=c14.strat_arith, examples=(6000, 50000), shards=(16, 16), variant="asan",
           rule="C14 big-integer driver (custom C back-end: modexp, mont) under ASan"),
     Check("drv_c12", run=reuse(c12.run_scrypt), strategy=c12.strat_scrypt, examples=(300, 5000), shards=(8, 16), variant="asan",
           rule="C12 scrypt driver under ASan"),
-    Check("drv_c03_mac", run=reuse(c03.run_mac), strategy=c03.strat_mac, examples=(2500, 60000), shards=(16, 16), variant="asan",
+    Check("drv_c03_mac", run=reuse(c03.run_mac), strategy=c03.strat_mac, examples=(2500, 15000), shards=(16, 16), variant="asan",
           rule="C03 MAC driver under ASan"),
-    Check("drv_c07", run=reuse(c07.run_v15), strategy=c07.strat_v15, examples=(800, 20000), shards=(16, 16), variant="asan",
+    Check("drv_c07", run=reuse(c07.run_v15), strategy=c07.strat_v15, examples=(800, 5000), shards=(16, 16), variant="asan",
           rule="C07 PKCS#1 v1.5 decoder driver under ASan"),
 ]
